@@ -395,6 +395,7 @@ func (c *Client) Close() error {
 		// already closed
 		return nil
 	}
+	verifPoint("close.locked")
 	defer func() {
 		// signal offline
 		blockSignalChan(c.onlineSig)
@@ -440,6 +441,7 @@ func (c *Client) Disconnect(quit <-chan struct{}) error {
 	if !ok {
 		return fmt.Errorf("%w; DISCONNECT not send", ErrClosed)
 	}
+	verifPoint("disconnect.locked")
 	defer func() {
 		// signal offline
 		blockSignalChan(c.onlineSig)
@@ -564,6 +566,7 @@ func blockSignalChan(ch chan chan struct{}) {
 }
 
 func (c *Client) toOffline() {
+	verifPoint("toOffline.enter")
 	select {
 	case _, ok := <-c.writeSem:
 		if !ok {
@@ -577,6 +580,7 @@ func (c *Client) toOffline() {
 			return // ErrClosed
 		}
 	}
+	verifPoint("toOffline.locked")
 	blockSignalChan(c.onlineSig)
 	clearSignalChan(c.offlineSig)
 	c.writeSem <- connPending
@@ -648,6 +652,7 @@ func (c *Client) write(quit <-chan struct{}, p []byte) error {
 		if !nonNilIsAny(err, connClosedErrors) {
 			conn.Close() // signal read routine
 		}
+		verifPoint("write.fail")
 		c.writeSem <- connPending // unlock write; pending connect
 		return errors.Join(ErrSubmit, err)
 	}
@@ -669,6 +674,7 @@ func (c *Client) writeBuffers(quit <-chan struct{}, p net.Buffers) error {
 			conn.Close() // signal read routine
 		}
 		// unlock write; pending connect
+		verifPoint("write.fail")
 		c.writeSem <- connPending
 		return errors.Join(ErrSubmit, err)
 	}
@@ -697,6 +703,7 @@ func (c *Client) writeBuffersNoWait(p net.Buffers) error {
 			conn.Close() // signal read routine
 		}
 		// unlock write; pending connect
+		verifPoint("write.fail")
 		c.writeSem <- connPending
 		return errors.Join(ErrSubmit, err)
 	}
@@ -918,6 +925,7 @@ func (c *Client) connect() error {
 	}
 
 	// lock sequences until resubmission (checks) complete
+	verifPoint("connect.dialed")
 	atLeastOnceSeq := <-c.atLeastOnce.seqSem
 	exactlyOnceSeq := <-c.exactlyOnce.seqSem
 
@@ -943,6 +951,7 @@ func (c *Client) connect() error {
 	}
 
 	// update signals
+	verifPoint("connect.resent")
 	blockSignalChan(c.offlineSig)
 	clearSignalChan(c.onlineSig)
 	// release
@@ -997,6 +1006,7 @@ func (c *Client) dialAndConnect(config *Config) (net.Conn, *bufio.Reader, error)
 	bufr, err := c.handshake(conn, config, clientID)
 	// ⚠️ delayed error check
 
+	verifPoint("dial.handshaked")
 	done <- struct{}{}
 	e := <-abort
 	if e != nil {
@@ -1145,6 +1155,7 @@ func (c *Client) ReadBackoff(err error) <-chan struct{} {
 		c.reconnectWait = idle * 2
 	}
 
+	verifNote("readbackoff.idle", int64(idle))
 	wait := make(chan struct{})
 	time.AfterFunc(idle, func() { close(wait) })
 	return wait
@@ -1203,6 +1214,7 @@ func (c *Client) readSlices() (message, topic []byte, err error) {
 	c.peek = nil
 
 	// acknowledge previous packet, if any
+	verifPoint("read.flush")
 	if len(c.pendingAck) != 0 {
 		// BUG(pascaldekloe): Save errors from Persistence can cause
 		// duplicate reception of messages with the “exactly once”
